@@ -111,7 +111,7 @@ def run(chk):
     from .common import precision_lint
     precision_lint(chk, repo, 'R06.11', ['TidalPy/RadialSolver/**/*.pyx', 'TidalPy/utilities/dimensions/*.pyx'])
     from .common import strided_view_lint
-    strided_view_lint(chk, repo, 'R06.14', ['TidalPy/RadialSolver/**/*.pyx', 'TidalPy/utilities/dimensions/*.pyx'], floor_views=5)
+    strided_view_lint(chk, repo, 'R06.14', ['TidalPy/RadialSolver/**/*.pyx', 'TidalPy/utilities/dimensions/*.pyx'])
     chk.floor('R06.5', 2); chk.floor('R06.6', 4); chk.floor('R06.7', 1)
     # ---- whole-driver symbolic execution (last): bounds of every array access during a complete solve; inputs restored on normal and failing exits.
     #      If the driver cannot be interpreted on a tree for which the rules above already report unlisted violations, those are the verdict; otherwise fail closed.
